@@ -13,3 +13,16 @@ print("reproduced: %d of %d open findings" % (sum(1 for i in openids if hits[i])
 for i, e in openids.items():
     if not hits[i]:
         print("NEVER HIT:", i, "|", " ".join(e["what"].split())[:140])
+# entries that may hide more than they describe: no feature id at all and at most two key fields, or a feature id that
+# names a whole kind (nothing but wildcards between the kind and the syntax)
+def _whole_kind(r):
+    m = re.match(r"^\^?([A-Za-z ]+)/(.*?)(@.*)?\$?$", r)
+    if not m:
+        return False
+    mid = re.sub(r"\.\*|\[\^/\]\*|/|\(|\)|\?|\\\+", "", m.group(2))
+    return not re.search(r"[A-Za-z0-9]", mid)
+for i, e in openids.items():
+    fr = e.get("fid_re") or []
+    m = e.get("match") or {}
+    if (not fr and len(m) <= 2 and not any(str(v).startswith("re:") for v in m.values())) or any(_whole_kind(r) for r in fr):
+        print("COARSE?", i, "| match", json.dumps(m)[:120], "| fid_re", fr)
